@@ -351,7 +351,9 @@ func c05Restart(c *vt.Ctx, s c05Scenario, idx int, sn c05Snap, retry bool) {
 			// tear-down of a request that was never acknowledged: whatever it left behind
 			// (a record written just before the crash, ownership re-applied from it) must be gone
 			if res.err == nil {
-				if _, ok := w.record(name); ok {
+				// (a record carrying another sandbox id - e.g. of an earlier ADD whose interface
+				// vanished while the daemon was down - is not this request's and is rightly kept)
+				if rec, ok := w.record(name); ok && rec.ContainerID != nil && *rec.ContainerID == cid {
 					c.Fatalf("%s: follow-up DEL for the unacknowledged request of %s left its record behind", tag, name)
 				}
 				if o := x.ownedBy(r.Pod); len(o) > 0 {
